@@ -63,7 +63,7 @@ func NewInterp(ld *Loaded, cfg *RunConfig) (*Interp, error) {
 		prog: ld.prog, mainPkg: ld.mainPkg, ts: NewTermStore(), cfg: cfg,
 		globals: map[*ssa.Global]*Value{}, initDone: map[*ssa.Package]bool{}, initFailed: map[*ssa.Package]string{},
 		constCache: map[*ssa.Const]Value{}, fnsSeen: map[*ssa.Function]bool{}, stubsUsed: map[string]int{},
-		digitProv: map[uint32]*digitsProv{}, locs: map[*time.Location]*Native{}, pureCache: map[*ssa.Function]int{},
+		digitProv: map[uint32]*digitsProv{}, locs: map[*time.Location]*Native{}, fixedZones: map[string]*Native{}, pureCache: map[*ssa.Function]int{},
 		globalMaps: map[*MapV]bool{}, qcache: map[string]Result{}, reProgs: map[string]*reProg{},
 	}
 	for i := 0; i < 256; i++ {
